@@ -181,7 +181,12 @@ def _refresh_uid(b):
 # ---------------------------------------------------------------------------------------
 # realisation
 
-BTYPES = {'Config': fdl.Config, 'Partial': fdl.Partial, 'ArgFactory': fdl.ArgFactory}
+class SubConfig(fdl.Config):
+  """A user subclass of fdl.Config."""
+
+
+BTYPES = {'Config': fdl.Config, 'Partial': fdl.Partial, 'ArgFactory': fdl.ArgFactory,
+          'SubConfig': SubConfig}
 SEQ_MAKERS = {'list': list, 'tuple': tuple, 'point': lambda it: kinds.Point(*it),
               'pair': lambda it: kinds.Pair(*it), 'tempbox': vnodes.TempBox}
 
@@ -370,7 +375,7 @@ class DagGen:
       p = positional[i]
       n.pos.append(self.arg_value(p, depth))
     if use_va:
-      for _ in range(rng.randint(1, 2)):
+      for _ in range(rng.choice([1, 1, 2, 2, 3, 4])):
         n.pos.append(self.child(depth + 1))
     for p in positional[npos:]:
       if p.kind == p.POSITIONAL_ONLY:
